@@ -17,9 +17,24 @@ Ltac norm_wrap :=
   change (2 ^ (8 - 1)) with 128; change (2 ^ (16 - 1)) with 32768; change (2 ^ (32 - 1)) with 2147483648;
   change (2 ^ (64 - 1)) with 9223372036854775808.
 
+(* one spelling for comparisons, so that a harmless respelling of a condition in the C++ (`not (a >= b)` for
+   `a < b`, `not (c < 0) ? x : y` for `c >= 0 ? x : y`) does not break the tie (review round): only <=? and <?,
+   no negation directly over a comparison or over the condition of an if *)
+Lemma bn_negb_leb a b : negb (a <=? b) = (b <? a). Proof. symmetry. apply Z.ltb_antisym. Qed.
+Lemma bn_negb_ltb a b : negb (a <? b) = (b <=? a). Proof. symmetry. apply Z.leb_antisym. Qed.
+Lemma bn_if_negb {A} (c : bool) (x y : A) : (if negb c then x else y) = (if c then y else x).
+Proof. destruct c; reflexivity. Qed.
+Ltac bnorm :=
+  repeat first [ rewrite Z.geb_leb | rewrite Z.gtb_ltb | rewrite bn_negb_leb | rewrite bn_negb_ltb
+               | rewrite bn_if_negb | rewrite Bool.negb_involutive ].
+(* last resort for pure boolean kernels (is_leap): decide by cases on the atoms (reordered and / or) *)
+Ltac bool_cases :=
+  repeat match goal with |- context [Z.eqb ?a ?b] => destruct (Z.eqb a b) end; reflexivity.
+
 Ltac lockstep :=
   repeat first
     [ reflexivity
+    | progress bnorm
     | match goal with
       | |- context [chk ?t ?x] => destruct (chk t x) eqn:?; cbn [obind]
       | |- context [obind (if ?b then _ else _) _] => destruct b eqn:?; cbn [obind]
@@ -44,7 +59,7 @@ Proof.
 Qed.
 
 Theorem gen_is_leap_eq : forall y, Gen_chrono.is_leap_g y = Some (is_leap_m y).
-Proof. intros y. reflexivity. Qed.
+Proof. intros y. first [reflexivity | unfold Gen_chrono.is_leap_g, is_leap_m; cbv zeta; bool_cases]. Qed.
 
 Lemma chk_i64_some x : -9223372036854775808 <= x <= 9223372036854775807 -> chk i64 x = Some x.
 Proof.
@@ -98,7 +113,9 @@ Proof.
 Qed.
 
 Theorem gen_month_minus_eq : forall m1 m2, Gen_chrono.month_minus_g m1 m2 = Some (month_minus_m m1 m2).
-Proof. intros m1 m2. reflexivity. Qed.
+Proof.
+  intros m1 m2. first [reflexivity | unfold Gen_chrono.month_minus_g, month_minus_m; cbv zeta; norm_wrap; bnorm; reflexivity].
+Qed.
 
 Theorem gen_weekday_diff_eq : forall a b, Gen_chrono.weekday_diff_g a b = Some (weekday_diff_m a b).
 Proof.
@@ -109,7 +126,7 @@ Proof.
   { unfold c, wraps. change (2 ^ 32) with 4294967296. change (2 ^ (32 - 1)) with 2147483648.
     set (r := u32w (a - b) mod 4294967296). assert (0 <= r < 4294967296) by (unfold r; lia).
     destruct (r <? 2147483648) eqn:E; lia. }
-  destruct (c >=? 0) eqn:E; cbn [obind]; [reflexivity|].
+  bnorm. destruct (0 <=? c) eqn:E; cbn [obind]; [reflexivity|].
   rewrite (chk_i32_some (c + 7)) by lia. reflexivity.
 Qed.
 
